@@ -8,6 +8,7 @@ pub mod c04;
 pub mod c06;
 pub mod c07;
 pub mod c08;
+pub mod c10;
 pub mod c16;
 pub mod c16_graphs;
 pub mod c17;
@@ -18,7 +19,7 @@ pub mod slice_oracles;
 pub mod standalone;
 pub mod stream_props;
 
-pub const ALL: &[&str] = &["C01", "C04", "C06", "C07", "C08", "C16", "C17", "C18", "C19"];
+pub const ALL: &[&str] = &["C01", "C04", "C06", "C07", "C08", "C10", "C16", "C17", "C18", "C19"];
 
 pub fn build(prop: &str, tier: Tier) -> Option<CheckDef> {
     match prop {
@@ -27,6 +28,7 @@ pub fn build(prop: &str, tier: Tier) -> Option<CheckDef> {
         "C06" => Some(c06::build(tier)),
         "C07" => Some(c07::build(tier)),
         "C08" => Some(c08::build(tier)),
+        "C10" => Some(c10::build(tier)),
         "C16" => Some(c16::build(tier)),
         "C17" => Some(c17::build(tier)),
         "C18" => Some(c18::build(tier)),
